@@ -595,7 +595,7 @@ CHAIN = {
                 what="trees of sub-messages A->B->C with fan-out 2 at the root, all four reply_on modes on every edge, every node "
                      "(contract body, reply handler, bank transfer, instantiation) failing or not; every node writes a distinct token; "
                      "compared: what every later invocation can read (balances, registry, all contract storages), Ok/Err, state after"),
-    "C03": dict(cfgs=["tree", "reply"], focus="seq,reply",
+    "C03": dict(cfgs=["tree", "reply"], focus="seq,reply,replyev,replydata",
                 need=["reply_on_error", "reply_on_success", "two_or_more_invocations"],
                 what="the C02 trees plus a configuration varying id (0, 1, u64::MAX), payload (empty, text, 0x00 0xFF) and what the "
                      "child returns; compared: the exact sequence of entry-point invocations (extra/missing/misplaced replies) and "
